@@ -118,6 +118,9 @@ func (w *verifC19) violate(class, format string, args ...interface{}) {
 }
 
 func verifRunC19(c *verifsim.Ctx) {
+	for _, p := range verifProbesC19 {
+		c.Add(p, 0) // so that a probe that is never reached shows up as 0
+	}
 	keys := verifKeys()
 	w := &verifC19{c: c, keys: keys, model: map[string]*verifIdent{}, builtin: map[string]string{}}
 	root, store := keys["root"], keys["store"]
@@ -765,3 +768,5 @@ func (w *verifC19) audit(why string) {
 	}
 	w.c.Logf("audit (%s): %d identities", why, len(ids))
 }
+
+var verifProbesC19 = []string{"probe:clash-refused", "probe:dot-primary-key-stored", "probe:find-absent", "probe:find-many-several-results", "probe:find-sequence-hit", "probe:find-sequence-skips-member-of-higher-format", "probe:identity-stored-in-several-formats", "probe:max-format-hides-higher-revision", "probe:optional-primary-key-non-default", "probe:restart-with-stored-assertions", "probe:revision-error-on-stale-add", "probe:revision-moved-forward"}
